@@ -17,7 +17,9 @@ def run(tier):
         "corpus: 20 tags x every content of length 0..3 over an 8-symbol alphabet + boundary encodings (9-octet Counter64, 8-octet INTEGER, 5-octet arcs, REAL forms, long-form strings); "
         "for every element x that one of 19 decoders accepts and every suffix s (length 1-2 over %s, length 3 over %s): from_ber(x||s) must give the same value and remainder s; "
         "each value embedded in a non-last varbind / followed by junk inside its varbind; every TLV node of 200 skeleton messages re-declared with a length running past its enclosing "
-        "element (short form, 0x83/0x84/0x85/0x88 forms) must be rejected; bytes after the top-level message must be rejected." % (("all 256 octets", "30 symbols") if tier == "thorough" else ("30 symbols", "8 symbols"))
+        "element (short form, 0x83/0x84/0x85/0x88 forms) or declared shorter than its children must be rejected; a complete element refused alone stays refused whatever follows; bytes after the "
+        "top-level message must be rejected; decrypt path: scoped PDUs (value length 0..39) whose right-edge elements declare 1..16 octets more than the ciphertext delivers, DES and AES, after 3 "
+        "different encrypt histories on the same key object, must be rejected." % (("all 256 octets", "30 symbols") if tier == "thorough" else ("30 symbols", "8 symbols"))
     )
     rec.assume("a Report PDU body is carried opaquely by the library (never decoded), so lengths inside it are not judged")
     rsx.run("c16", tier, rec)
